@@ -55,6 +55,8 @@ impl Src for Concrete {
     fn check(&mut self, c: bool, what: &'static str) { if !c && !self.assumption_violated { self.failed.push(what); } }
 }
 
+#[cfg(not(kani))]
+pub mod bounded;
 pub mod interval;
 pub mod angles;
 
